@@ -54,6 +54,13 @@ struct svalue_s {
     union svalue_u u;
 };
 
+/* LPC integers are 64-bit two's complement and wrap around on overflow.  Signed overflow is undefined
+ * behaviour in C, so + - * and negation of LPC integers are done in uint64_t and converted back. */
+#define LPC_INT_ADD(a, b)	((int64_t) ((uint64_t) (a) + (uint64_t) (b)))
+#define LPC_INT_SUB(a, b)	((int64_t) ((uint64_t) (a) - (uint64_t) (b)))
+#define LPC_INT_MUL(a, b)	((int64_t) ((uint64_t) (a) * (uint64_t) (b)))
+#define LPC_INT_NEG(a)		((int64_t) (0 - (uint64_t) (a)))
+
 /* values for type field of svalue struct */
 #define T_INVALID       0x0
 #define T_LVALUE        0x1
